@@ -17,6 +17,8 @@ level=exploration
 case "$prop" in C09|C10) level=fault_enumeration;; esac
 bins="$bin/archesim"
 case "$prop" in C01|C09|C16) bins="$bin/archesim,$bin/archesim,$bin/archesim,$bin/archesim_tiny";; esac
+# the filter-heavy profiles give one worker in eight to the 64-bit mask build as well
+case "$prop" in C03|C05|C06|C07|C08|C11) bins="$bin/archesim,$bin/archesim,$bin/archesim,$bin/archesim,$bin/archesim,$bin/archesim,$bin/archesim,$bin/archesim_tiny";; esac
 case "$prop" in C14) bins="$bin/archesim_126,$bin/archesim_126,$bin/archesim_plain,$bin/archesim";; esac
 common=(-tier "$tier" -seed "$seed" -evidence "$evdir/$prop.json" -out "$root/replays")
 case "$prop" in
